@@ -29,6 +29,23 @@ CHECKS = {
          "Every subset of {before, step, after, other scenario's step} x payload {String,&str,custom} x World::new {ok,Err,panic} x gate placement {none, steps, all}; oracle: no poll unwinds, payloads preserved (C02 oracle), sentinel panic hook silent during the run and back in place afterwards, run-Finished last.", "§6 C10"),
 }
 
+CHECKS.update({
+ "C11": ("model_checking", "hist", "exhaustive enumeration of all linear extensions of the happened-before order (prefix-sharing DFS over cloned writer states) against a reference normalizer",
+         "Every linearization (respecting bracket-before-content, attempt k before k+1, run-Finished last) of every entity set within a weight bound (<=2 features, <=1 rule each, <=2/3 scenarios per feature, <=2 attempts, 2-3 events per attempt, optional ParsingFinished / parser error floating freely) is fed call by call into the real Normalize<Rec>; after EVERY call the forwarded prefix must equal that of a 100-line reference normalizer (DESIGN App. B); declarative checks (permutation, contiguity, nesting, Finished last) on every complete output. Includes orders runner::Basic never produces.", "§6 C11"),
+ "C12": ("exploration", "hist", "bounded-exhaustive enumeration of normalized streams generated by the scenario reference model, against an independent recount",
+         "All streams of a grammar: scenario shape (0-1 background step, 0-2 steps, one odd kind) x hooks x retry budget 0-2 x fault chain x second scenario from a 10-element representative set x placement x 0-1(2) parser errors x {plain, FailOnSkipped-rewritten, fail-fast cut} through Summarize<Rec>, Summarize<Repeat<Rec>>, Repeat<Summarize<Rec>> (failed / skipped). Oracle: recount from the statement (App. B), counters unchanged by replayed events, summary text parsed back and written exactly once after run-Finished.", "§6 C12"),
+ "C13": ("exploration", "hist", "exhaustive enumeration of all event sequences up to a length over a fixed alphabet, against reference map/filter/route functions",
+         "All sequences (contract-abiding or not) of length <=2 over a 54-symbol alphabet (every event kind x 5 tag-placement contexts x retries x background) and length 3 (4 thorough) over a core alphabet, plus arbitrary writes, through 16 nestings of FailOnSkipped / Repeat / Tee / Or / discard (depth <= 3); inner recorders compared with the reference after every input; Stats algebra (max / sum / zero / delegate) over counter values {0,1,2}^2.", "§6 C13"),
+ "C15": ("exploration", "hist", "exhaustive enumeration of filters x tagged features through the real Cucumber::filter_run with a recording Runner, against a set-semantics reference",
+         "576 features (tags {a,b} on feature x rule x scenarios, names from a pool) x 100+ filter configurations: 45 tag formulas of depth <=2 (built directly and through real clap parsing of --tags), 4 name regexes, 4 closures, and the precedence combinations name > tags > closure. Oracle: the features received by the runner equal the originals with exactly the accepted scenarios, in order, everything else intact.", "§6 C15"),
+ "C16": ("exploration", "hist", "exhaustive enumeration of generated outline features against a regex-free reference expansion",
+         "Generated .feature texts (outline top-level / in a rule; 1-2 Examples tables, tagged or not, 0-2 rows, header only, column orders; placeholders plain / adjacent / repeated / unknown / malformed in name, step, doc string, table cell; values with <, >, $, regex metacharacters, spaces, non-ASCII) parsed by gherkin and expanded by the real Ext::expand_examples (subset through parser::Basic on scratch files). Oracle: hand-written scanner reference; one scenario per row in order, substitutions, tags, distinct positions, single error naming an unknown placeholder.", "§6 C16"),
+ "C17": ("exploration", "hist", "exhaustive enumeration of definition sets x registration orders x hash-iteration permutations (hook H2) x step texts",
+         "All definition sets of size <=3 (4 thorough) from 40 (keyword, regex, location) candidates over 9 regexes (nested, optional, named, alternation, multi-byte), every registration order, every permutation of the candidate iteration order, 3 step types x 11 texts through the real Collection::find. Oracle: reference by Regex::captures; not-found / the single definition (by calling it) with whole match + named groups / ambiguity listing exactly the candidates in one order for all orders.", "§6 C17"),
+ "C18": ("exploration", "hist", "complete product enumeration through RetryOptions::parse_from_tags (pure) + Engine A end-to-end for builder/CLI merging",
+         "Complete product of retry tags {none,@retry,@retry(3),@retry.after(2s),@retry(3).after(2s)} on scenario x rule x feature x --retry x --retry-after x --retry-tag-filter {none,@x,not @x,@x and @y} x placement of x/y against the precedence of the statement; builder-vs-CLI merging of retries, delay, concurrency and fail-fast is exercised end-to-end by the Engine A families retry / conc / ff (checks C05, C06, C08).", "§6 C18"),
+})
+
 NOT_YET = {
 }
 
